@@ -407,6 +407,8 @@ class SpecEnv(object):
         is_generic_exception_class = U("is_generic_exception_class", Val, Bool)
         class_name = U("class_name", Val, Val)
         class_of_instance = U("class_of_instance", Val, Val)
+        stream_of = U("stream_of", Val, Val)        # the SocketStream built around a socket / the Channel built around a stream:
+        channel_of = U("channel_of", Val, Val)      # the constructors only store their argument
         derived_from = U("derived_from", Val, Val)
         text_format = U("text_format", Val, VL, Val)
         netref_conn = U("netref_conn", Val, Val)
@@ -529,6 +531,8 @@ class SpecEnv(object):
             x = [e for e in ctx.st.trace if e[0] == kind][i][k]
             return SVal(x) if z3.is_expr(x) else SVal(to_val(x))
         P["ev_val"] = p_ev_val
+        # the event's item as it is (a heap object stays the object: its fields / entries can be read)
+        P["ev_obj"] = lambda ctx, kind, i, k: [e for e in ctx.st.trace if e[0] == kind][i][k]
         def p_ev_raised(ctx, kind, i):
             x = [e for e in ctx.st.trace if e[0] == kind][i][3]
             return isinstance(x, str) and x == "raise"
@@ -666,6 +670,8 @@ class SpecEnv(object):
         P["is_generic_exception_class"] = lambda ctx, c: b2v(is_generic_exception_class(to_val(c)))
         P["class_name"] = lambda ctx, c: SVal(class_name(to_val(c)))
         P["class_of_instance"] = lambda ctx, c: SVal(class_of_instance(to_val(c)))
+        P["stream_of"] = lambda ctx, c: SVal(stream_of(to_val(c)))
+        P["channel_of"] = lambda ctx, c: SVal(channel_of(to_val(c)))
         P["derived_from"] = lambda ctx, c: SVal(derived_from(to_val(c)))
         P["text_format"] = lambda ctx, f, l: SVal(Val.VStr(ops.TEXT_FMT(to_val(f), Val.VTuple(self.to_sort(l, "vl")))))
 
